@@ -21,7 +21,7 @@ EXPLANATION = (
     "a violation (known findings, one key per constructor x origin x site); R16.3 the normaliser keeps its contract shape: quote detection by "
     "containment of a quote character, quotes stripped and case kept; square brackets stripped; everything else lower-cased; R16.4 a dotted "
     "name splits at its last dot (rsplit('.', 1) / backward scan) with the part limit, and the scope map offers bare, qualified and alias keys "
-    "(shared with C02/C08). Does not decide: dialect-specific quoting rules."
+    "(shared with C02/C08); R16.5 the parts of a dotted reference are read from the parse tree, never by splitting its text at '.' (a quoted identifier may hold a dot; only `t.*` is split textually); R16.6 each part of a dotted qualifier is normalised on its own (= R07.3). Does not decide: dialect-specific quoting rules."
 )
 RULE_TEXT = "R16.1: per model class; R16.2: per constructor name-argument and per normaliser application (semantic key ctor(param)<-state@function); others per site"
 
@@ -191,6 +191,40 @@ def rules(ctx: Ctx) -> None:
         backward = bool(back_rngs) and first_hit
         ctx.ob("R16.4", "factory-scans-for-the-last-dot", backward, f.loc(), "the sqlfluff table factory scans the reference's segments backwards and stops at the first (= last) dot")
     scope.scope_map_rules(ctx, "R16.4")
+    # ---- R16.5 / R16.6 ------------------------------------------------------------------------------
+    reference_parts_rule(ctx, "R16.5")
+    from .common import import_rules
+
+    import_rules(ctx, "C07", {"R07.3": "R16.6"})  # each part of a dotted qualifier is normalised on its own (= R07.3)
+
+
+def reference_parts_rule(ctx: Ctx, rule: str) -> None:
+    """The parts of a dotted reference come from the parse tree (identifier children), never from splitting its text at '.': a quoted
+    identifier may contain a dot.  Only a wildcard (`t.*`), which has no identifier children of its own, may be split textually."""
+    prog = ctx.prog
+    from ..cfg import controlling_facts, flow as _flow
+
+    n_sites = 0
+    for f in prog.funcs.values():
+        if not f.mod.name.startswith("sqllineage.core.parser.sqlfluff"):
+            continue
+        for k in prog.walk_fn(f):
+            if not (isinstance(k, ast.Call) and isinstance(k.func, ast.Attribute) and k.func.attr in ("split", "rsplit", "partition", "rpartition") and k.args and prog.try_fold(k.args[0], f.mod, f) == "."):
+                continue
+            recv = k.func.value
+            srcs = prog.value_sources(f, recv)
+            raw_of = [s_ for s_ in srcs if isinstance(s_, ast.Attribute) and s_.attr == "raw"]
+            if not raw_of:
+                continue
+            n_sites += 1
+            seg = u(raw_of[0].value)
+            facts = set(_flow(prog, f).facts_for(k)) | set(controlling_facts(prog.parents, k))
+            wildcard_only = any(p and t == f"is_wildcard({seg})" for t, p in facts)
+            owner = f"{f.cls.name}.{f.name}" if f.cls else f.name
+            ctx.ob(rule, f"reference-parts-from-the-parse-tree:{owner}", wildcard_only, loc(f.mod, k),
+                   f"`{u(k)}` splits the text of a segment at '.'; unless the segment is known to be a wildcard its parts must be read from its identifier children "
+                   f"(`\"a.b\"` is one identifier)")
+    ctx.floor("text splits of segment text at '.'", n_sites, 1)
 
 
 def _own_default_states(nf: NormForm, prog: Prog, arg: ast.AST, init: Fn) -> set[str]:
